@@ -20,6 +20,8 @@ func YMD(n int) (int, int, int) {
 	return t.Year(), int(t.Month()), t.Day()
 }
 
+func YearOfDay(n int) int { y, _, _ := YMD(n); return y }
+
 func Doy(n int) int { return epoch.AddDate(0, 0, n).YearDay() }
 
 func IsLeap(y int) bool { return y%4 == 0 && (y%100 != 0 || y%400 == 0) }
